@@ -68,6 +68,13 @@ func TestReplay(t *testing.T) {
 		if res.wedged {
 			viols = append(viols, [2]string{"loop-wedged", "a probe did not complete at quiescence"})
 		}
+	case string(probe["kind"]) == `"listener"`:
+		var c CaseD
+		if err := json.Unmarshal(art.Case, &c); err != nil {
+			t.Fatal(err)
+		}
+		fmt.Fprintf(&sb, "listener [%s]: %s\n", c.Format, strings.Join(descD(c.Path), " -> "))
+		viols, _ = runPathD(c.Format, c.Path)
 	case string(probe["kind"]) == `"real"`:
 		var c CaseC
 		if err := json.Unmarshal(art.Case, &c); err != nil {
